@@ -90,8 +90,8 @@ theorem mem_insertBy {α : Type} (lt : α → α → Bool) (x y : α) (l : List 
   | cons a l ih =>
     simp only [insertBy]
     split
-    · simp
     · simp only [List.mem_cons, ih]; tauto
+    · simp
 
 theorem mem_sortBy {α : Type} (lt : α → α → Bool) (y : α) (l : List α) : y ∈ sortBy lt l ↔ y ∈ l := by
   induction l with
